@@ -131,6 +131,12 @@ type Engine struct {
 
 	wgConn sync.WaitGroup
 
+	// Stop versus connections that are being registered at the same moment:
+	// once stopping is set (under mux) no new registration begins, and Stop
+	// waits for those in flight (wgAdding) before it looks at the table.
+	stopping bool
+	wgAdding sync.WaitGroup
+
 	// store std connections, for Windows only.
 	connsStd map[*Conn]struct{}
 
@@ -198,9 +204,16 @@ func (e *Engine) SetLTSyncRead() {
 //
 //go:norace
 func (g *Engine) Stop() {
+	g.mux.Lock()
+	g.stopping = true
+	g.mux.Unlock()
+
 	for _, l := range g.listeners {
 		l.stop()
 	}
+
+	// connections whose registration had begun are in the table after this.
+	g.wgAdding.Wait()
 
 	g.mux.Lock()
 	conns := g.connsStd
@@ -242,6 +255,27 @@ func (g *Engine) Stop() {
 
 	g.Wait()
 	logging.Info("NBIO[%v] stop", g.Name)
+}
+
+// beginAdd is called before a connection is registered with a poller. It
+// returns false once Stop has begun; every successful call is paired with
+// endAdd.
+//
+//go:norace
+func (g *Engine) beginAdd() bool {
+	g.mux.Lock()
+	if g.stopping {
+		g.mux.Unlock()
+		return false
+	}
+	g.wgAdding.Add(1)
+	g.mux.Unlock()
+	return true
+}
+
+//go:norace
+func (g *Engine) endAdd() {
+	g.wgAdding.Done()
 }
 
 // Shutdown stops Engine gracefully with context.
